@@ -209,6 +209,9 @@ func (d *docGen) forType(t reflect.Type, depth int) string {
 				name = name + "x"
 			}
 			kb, _ := stdjson.Marshal(name)
+			if d.r.Intn(4) == 0 {
+				kb = []byte(c02RespellKey(d.r, name))
+			}
 			ft := f.Type
 			val := d.forType(ft, depth-1)
 			if strings.Contains(f.Tag.Get("json"), ",string") && d.r.Intn(3) > 0 {
@@ -243,6 +246,31 @@ func safeDo(f func() error) (err error, pan string) {
 		}
 	}()
 	return f(), ""
+}
+
+// c02RespellKey writes an object key with some of its ASCII characters as \u escapes (upper- or
+// lower-case hex digits) and some letters in the other case: the same key for encoding/json
+func c02RespellKey(r *rand.Rand, name string) string {
+	var sb strings.Builder
+	sb.WriteByte('"')
+	for _, ch := range name {
+		if ch < 0x80 && r.Intn(3) == 0 {
+			x := ch
+			if r.Intn(3) == 0 && (x >= 'a' && x <= 'z' || x >= 'A' && x <= 'Z') {
+				x ^= 0x20
+			}
+			if r.Intn(2) == 0 {
+				fmt.Fprintf(&sb, "\\u%04x", x)
+			} else {
+				fmt.Fprintf(&sb, "\\u%04X", x)
+			}
+			continue
+		}
+		b, _ := stdjson.Marshal(string(ch))
+		sb.Write(b[1 : len(b)-1])
+	}
+	sb.WriteByte('"')
+	return sb.String()
 }
 
 func c02Show(v interface{}) string {
